@@ -151,7 +151,7 @@ prop('C14', COMMON +
      'consumed in source order. Clause "for a name the position covers exactly its characters": NAME-LOC-PAIR - every Id '
      'node takes loc and name from the same token. Does not decide the lexer\'s line/column bookkeeping, that positions lie '
      'inside the document, or that siblings do not overlap.',
-     [loc_enclose.run, loc_enclose.run_name_loc_pair],
+     [loc_enclose.run, loc_enclose.run_name_loc_pair, loc_enclose.run_result_loc],
      ['tokens are consumed in source order and the lexer assigns increasing positions (C05 LEX-BOUNDS side)'])
 
 prop('C17', COMMON +
@@ -165,7 +165,7 @@ prop('C17', COMMON +
      'interpretation of the sweeper with variables for the cursor field and the table length: the swept range starts at the '
      'cursor found on entry and the cursor is left at its end (or 0 at the table end), so consecutive windows tile the table. '
      'Does not decide the interleaving argument itself (that marking completes between cursor wraps).',
-     [heap.run_tag, heap.run_dealloc, heap.run_unintern, heap.run_monotone, heap.run_intern, sweep_window.run,
+     [heap.run_tag, heap.run_dealloc, heap.run_unintern, heap.run_monotone, heap.run_intern, heap.run_unmarked_set, sweep_window.run,
       witness.run_for(['WHeap'], 'C17: handles cannot be forged and heap internals cannot be touched outside the crate (compile-fail witnesses)')],
      ['the marker marks every live string before the unmarked-module set becomes empty (C11 side, T-gc)'])
 
